@@ -25,6 +25,10 @@ EXPLANATION = (
 
 INV = re.compile(r"^fb_inv_(basic|binar|exgcd|almos|itoht|bruch|ctaia|lower)$")
 EXP = re.compile(r"^fb_exp_(basic|slide|monty)$")
+OUT_RBW_OK = {
+    ("eb_mul_lnaf_imp", "r"): "the result is first written under `naf[l - 1] > 0`; the leading digit of a non-adjacent form of a positive integer is +1",
+    ("eb_mul_fix_plain", "r"): "as eb_mul_lnaf_imp: the leading digit of the recoding is +1",
+}
 EBFAM = re.compile(r"^eb_mul(_\w+)?$")
 EBNOT = re.compile(r"_mul_(pre|cof|tab)|_mul_pre_|_mul_fix_tab")
 ALIAS_OK = {
@@ -42,8 +46,9 @@ def analyse(ctx, prog, chk):
     nc = c02.rule_const_in(ctx, prog, chk, prefix=("src/fb/", "src/fbx/", "src/low/easy/relic_fb", "src/eb/"))
     ebfam = [fn for fn in prog.all if EBFAM.match(fn.name.split("__")[-1]) and not EBNOT.search(fn.name) and (fn.rfile.startswith("src/eb/") or "selftest" in fn.file)]
     ns = expsib.rule_sm_sign(ctx, prog, chk, ebfam, EBFAM)
-    nr = alias.rule_out_rbw(ctx, prog, chk, lambda fn: fn.rfile.startswith("src/eb/"), re.compile(r"^eb_t\b"))
-    return {"inv": ni, "exp": len(fam), "alias": na, "const": nc, "sign": ns, "rbw": nr}
+    npa = alias.rule(ctx, prog, chk, lambda fn: fn.rfile.startswith("src/eb/"), {}, points=True)[0]
+    nr = alias.rule_out_rbw(ctx, prog, chk, lambda fn: fn.rfile.startswith("src/eb/"), re.compile(r"^eb_t\b"), exceptions=OUT_RBW_OK)
+    return {"inv": ni, "exp": len(fam), "alias": na, "const": nc, "sign": ns, "rbw": nr, "palias": npa}
 
 
 def selfcheck(ctx, prog, chk):
@@ -56,6 +61,7 @@ def run(ctx, chk):
     chk.floor("EXP-SIB", "exponentiation siblings", c["exp"], 3)
     chk.floor("ALIAS-RW", "output/input pairs of the same type", c["alias"], 40)
     chk.floor("CONST-IN", "const pointer parameters of the module", c["const"], 80)
+    chk.floor("ALIAS-RW", "output/input pairs incl. single binary-curve points", c["alias"] + c["palias"], 80)
     chk.floor("SM-SIGN", "scalar parameters of the binary-curve multiplication siblings", c["sign"], 25)
     chk.floor("OUT-RBW", "output points of binary-curve functions that also take an input point", c["rbw"], 40)
     if chk.tier == "thorough":
